@@ -357,10 +357,12 @@ double cmi_random_nor_not_hot(int64_t i_cand_x)
     double sign = ((i_cand_x >> 63) ? -1.0 : 1.0);
     i_cand_x &= INT64_MAX;
 
-    /* Alias sample to find out which overhang area */
+    /* Alias sample to find out which overhang area. The alias decision needs
+     * its own random number: i_cand_x is used again below as the X coordinate
+     * inside the overhang and must stay uniform given the chosen overhang. */
     int64_t i_cand_y = zig_sample63();
     uint8_t jdx = i_cand_y & 0xff;
-    jdx = (i_cand_x >= nor_zig_i_prob[jdx]) ? nor_zig_alias[jdx] : jdx;
+    jdx = (zig_sample63() >= nor_zig_i_prob[jdx]) ? nor_zig_alias[jdx] : jdx;
     if (jdx > nor_zig_inflection) {
         /* Convex overhang */
         for (;;) {
